@@ -900,7 +900,9 @@ class RTCSctpTransport(AsyncIOEventEmitter):
         # is this an init?
         init_chunk = len([x for x in chunks if isinstance(x, InitChunk)])
         if init_chunk:
-            assert len(chunks) == 1
+            # an INIT must not be bundled with other chunks
+            if len(chunks) != 1:
+                return
             expected_tag = 0
         else:
             expected_tag = self._local_verification_tag
